@@ -520,20 +520,7 @@ var rulePragmaValue = &core.Rule{ID: "R12.7", Min: 1,
 			core.Bail("no HTML sniffer registered")
 		}
 		// string scanners reachable from the HTML sniffer
-		seen := map[*ssa.Function]bool{}
-		var fns []*ssa.Function
-		var rec func(f *ssa.Function, d int)
-		rec = func(f *ssa.Function, d int) {
-			if f == nil || f.Blocks == nil || seen[f] || d > 4 || !core.InMod(f) {
-				return
-			}
-			seen[f] = true
-			fns = append(fns, f)
-			for _, ci := range core.Calls(f) {
-				rec(ci.Common().StaticCallee(), d+1)
-			}
-		}
-		rec(cm.html, 0)
+		fns := belowSniffer(cm.html)
 		isWSTrim := func(v ssa.Value) bool { return isWSTrimValue(c, v) }
 		n := 0
 		for _, f := range fns {
@@ -1068,6 +1055,10 @@ func belowSniffer(root *ssa.Function) []*ssa.Function {
 		}
 		for _, an := range f.AnonFuncs {
 			rec(an, d+1)
+		}
+		// functions handed on as values (a combinator that tries sniffers one after the other)
+		for _, g := range funcOperands(f) {
+			rec(g, d+1)
 		}
 	}
 	rec(root, 0)
